@@ -11,6 +11,7 @@ def fails : Stmt → Bool
   | .prepFail => true
   | .queryFail => true
   | .partialFail _ => true
+  | .startFail _ _ => true
   | _ => false
 
 def isCtl : Stmt → Bool
@@ -86,9 +87,10 @@ theorem reqLoop_eq (rb tx : Bool) (db : Db) (ss : List Stmt) :
         | some db' =>
           cases hro : readOnly s <;>
             simp [executeStmt, queryStmt, hr, ih, reqSucc, execSucc, hro]
-      · have hs : s = .prepFail := by cases s <;> simp_all [prepares]
-        subst hs
-        cases tx <;> cases rb <;> simp [prepares, sqlRun, abortOnError, ih, failEffect]
+      · have hs : sqlRun db s = none ∧ failEffect db s = db := by
+          cases s <;> simp_all [prepares, sqlRun, failEffect]
+        have hp' : prepares s = false := by simpa using hp
+        cases tx <;> cases rb <;> simp [hp', hs.1, hs.2, abortOnError, ih]
 
 /-! ### plain specifications of the result list -/
 
